@@ -123,7 +123,7 @@ func c14PassedToCodec(a ssa.Value, depth int) bool {
 // C14.norm: values are normalised between jq and the third-party codec
 
 func c14Norm(cx *c14Ctx) {
-	ru := cx.r.Rule("C14.norm", "values crossing to/from a third-party serialiser are normalised: the Encode/Write argument depends on gojqx.Normalize / NormalizeToStrings of the input, the decoded value stored as Actual depends on gojqx.Normalize (yaml, toml) or gojq.NormalizeNumbers of a json.Decoder with UseNumber; gojqx.NormalizeFn recurses in every container loop", 14)
+	ru := cx.r.Rule("C14.norm", "values crossing to/from a third-party serialiser are normalised: the Encode/Write argument depends on gojqx.Normalize / NormalizeToStrings of the input, the decoded value stored as Actual depends on gojqx.Normalize (yaml, toml) or gojq.NormalizeNumbers of a json.Decoder with UseNumber; gojqx.NormalizeFn recurses in every container loop on the loop element and applies the scalar mapper only to the value itself", 20)
 	p := cx.p
 	gq := fw.Mod + "/internal/gojqx."
 	type sink struct {
@@ -234,6 +234,7 @@ func c14Norm(cx *c14Ctx) {
 		}
 	}
 	c14NormRec(cx, ru)
+	c14NormScalar(cx, ru)
 }
 
 func c14SinkName(call string) string {
@@ -378,7 +379,7 @@ func c14IsURLValues(t types.Type) bool {
 }
 
 func c14Multi(cx *c14Ctx) {
-	ru := cx.r.Rule("C14.multi", "inside loops of the conversion packages a map entry (or url.Values.Set) with a key that does not change in the innermost loop must accumulate (append of the previous entry), otherwise each iteration overwrites the last: repeated query keys / repeated child elements keep all values; an entry known to exist (ok of a lookup) is merged, not replaced; a constant index into a url.Values entry is guarded by len <= index+1", 18)
+	ru := cx.r.Rule("C14.multi", "inside loops of the conversion packages a map entry (or url.Values.Set) with a key that does not change in the innermost loop must accumulate (append of the previous entry), otherwise each iteration overwrites the last: repeated query keys / repeated child elements keep all values; an entry known to exist (ok of a lookup) is merged, not replaced; a constant index into a url.Values entry is guarded by len <= index+1 and not by len <= index", 18)
 	p := cx.p
 	for _, f := range p.FqFunctions() {
 		if !c14InScope(f) {
@@ -493,15 +494,23 @@ func c14Multi(cx *c14Ctx) {
 				return
 			}
 			k := fmt.Sprintf("%s|index[%d]", fw.ShortFn(f), idx)
-			proved := false
+			proved, dead := false, false
 			fw.EachInstr(f, func(i2 ssa.Instruction) {
 				if l, ok := i2.(*ssa.Call); ok && fw.IsBuiltinCall(l, "len") && l.Call.Args[0] == ia.X {
 					q := fw.Cmp{P: env.Of(l).Sub(fw.PConst(idx + 1)), Rel: fw.LE}
 					if env.Proves(ia.Block(), q) {
 						proved = true
 					}
+					// the guard must leave room for the element itself: len <= index means the arm only sees lists without it
+					if env.Proves(ia.Block(), fw.Cmp{P: env.Of(l).Sub(fw.PConst(idx)), Rel: fw.LE}) {
+						dead = true
+					}
 				}
 			})
+			if dead {
+				ru.Fail(k, p.Rel(ia.Pos()), fmt.Sprintf("element %d of a query value list is used in an arm that is only reached when the list has at most %d elements: a key with exactly one value never takes the scalar form (and the index is out of range)", idx, idx))
+				return
+			}
 			ru.Check(proved, k, p.Rel(ia.Pos()), "guarded by len <= index+1", fmt.Sprintf("only element %d of a query value list is used without a guard proving the list has no further elements: additional values of a repeated key are dropped", idx))
 		})
 	}
@@ -511,7 +520,7 @@ func c14Multi(cx *c14Ctx) {
 // C14.seq: xml "#seq" ordering is numeric
 
 func c14Seq(cx *c14Ctx) {
-	ru := cx.r.Rule("C14.seq", "to_xml (object mode): in the arm for the \"#seq\" key the value is parsed with an integer parser, that integer reaches the function's integer result, and the sibling sort fed from those results uses integer keys and an ascending a<b comparison (numeric, not lexicographic order)", 3)
+	ru := cx.r.Rule("C14.seq", "to_xml (object mode): in the arm for the \"#seq\" key the value is parsed with an integer parser, that integer reaches the function's integer result, and the sibling sort fed from those results uses integer keys and an ascending a<b comparison (numeric, not lexicographic order); the \"#seq\" arm makes the element report it, a child reporting it always selects the #seq sort, and the key and element slices of every ProxySort are appended in lock-step", 8)
 	p := cx.p
 	root := cx.reg["to_xml"]
 	if root == nil {
@@ -577,6 +586,7 @@ func c14Seq(cx *c14Ctx) {
 		}
 		// (c) the sort whose keys come from the recursive results
 		nSort := 0
+		seqBlocks := map[*ssa.BasicBlock]bool{}
 		for _, ci := range fw.CallsIn(f) {
 			c, ok := ci.(*ssa.Call)
 			if !ok || !strings.HasSuffix(fw.CalleeName(c), "/internal/sortx.ProxySort") || len(c.Call.Args) != 3 {
@@ -596,6 +606,7 @@ func c14Seq(cx *c14Ctx) {
 				continue
 			}
 			nSort++
+			seqBlocks[c.Block()] = true
 			key := fmt.Sprintf("%s|sort#%d", fn, nSort)
 			pos := p.Rel(c.Pos())
 			st, _ := c.Call.Args[0].Type().Underlying().(*types.Slice)
@@ -627,6 +638,7 @@ func c14Seq(cx *c14Ctx) {
 		if nSort == 0 {
 			ru.Fail(fn+"|sort", p.Rel(f.Pos()), "no sortx.ProxySort in "+fn+" is keyed by the #seq results of the child elements")
 		}
+		c14SeqExtra(cx, ru, f, seqBlocks, seqArms)
 	}
 	if !found {
 		ru.Undecided("to_xml|#seq", p.Rel(root.Pos()), "no comparison with the \"#seq\" key found below to_xml")
@@ -706,7 +718,7 @@ func c14IsLenOf(n, pre ssa.Value) (bool, string) {
 // C14.xmlkeys: special keys agree between from_xml and to_xml
 
 func c14XMLKeys(cx *c14Ctx) {
-	ru := cx.r.Rule("C14.xmlkeys", "per mode (object/array) the set of '#'-keys from_xml writes equals the set to_xml recognises, each such key is tied to the same node field (Chardata/Comment) in both directions, and the default attribute prefix of to_xml equals the decoder's default", 8)
+	ru := cx.r.Rule("C14.xmlkeys", "per mode (object/array) the set of '#'-keys from_xml writes equals the set to_xml recognises, each such key is tied to the same node field (Chardata/Comment) in both directions, the default attribute prefix of to_xml equals the decoder's default, and attribute keys are prefixed by from_xml exactly in the mode where to_xml recognises them by prefix", 10)
 	p := cx.p
 	toRoot := cx.reg["to_xml"]
 	fromRoot := c14DecodeRoot(p, "XML")
@@ -772,6 +784,7 @@ func c14XMLKeys(cx *c14Ctx) {
 			ru.Check(reflect.DeepEqual(ff, tf), "mode:"+mode+":"+k, p.Rel(to.Pos()), fmt.Sprintf("%s <-> %v", k, ff),
 				fmt.Sprintf("key %q is filled from node field(s) %v by %s but stored into %v by %s", k, ff, fw.ShortFn(from), tf, fw.ShortFn(to)))
 		}
+		c14XMLAttrPrefix(cx, ru, mode, from, to)
 	}
 	// default attribute prefix
 	optsT := p.NamedType("format/xml", "ToXMLOpts")
@@ -824,7 +837,7 @@ func c14XMLKeys(cx *c14Ctx) {
 // C14.json: the JSON writer's number and string constants
 
 func c14JSON(cx *c14Ctx) {
-	ru := cx.r.Rule("C14.json", "colorjson (to_json, tojson, to_jsonl): integers and big integers are written in base 10, floats with shortest round-trip precision (-1) at 64 bits; every escaped byte is written as the JSON escape of that byte, \\u00XX with high nibble first from a hex alphabet, and a byte is copied unescaped only when it is >= 0x20 and neither '\"' nor '\\'", 12)
+	ru := cx.r.Rule("C14.json", "colorjson (to_json, tojson, to_jsonl): integers and big integers are written in base 10, floats with shortest round-trip precision (-1) at 64 bits; every escaped byte is written as the JSON escape of that byte, \\u00XX with high nibble first from a hex alphabet, and a byte is copied unescaped only when it is >= 0x20 and neither '\"' nor '\\'; the string scanner copies exactly s[start:i] / s[start:], moves start only to the new i and only after the pending run was copied; invalid UTF-8 is written as the escape of U+FFFD; the exponent clean-up deletes exactly the tested byte", 22)
 	p := cx.p
 	esc := map[byte]byte{'"': '"', '\\': '\\', '/': '/', 'b': 8, 'f': 12, 'n': 10, 'r': 13, 't': 9}
 	nNum := 0
@@ -867,10 +880,16 @@ func c14JSON(cx *c14Ctx) {
 				return
 			}
 			cv, isC := c14ConstInt(bo.Y)
+			other := bo.X
 			if !isC {
 				cv, isC = c14ConstInt(bo.X)
+				other = bo.Y
 			}
 			if !isC || cv < 0 || cv > 255 {
+				return
+			}
+			// only tests of the byte of the string under encoding (s[i]) select an escape
+			if _, _, isByte := c14StrIndex(other); !isByte {
 				return
 			}
 			arm := ifi.Block().Succs[0]
@@ -997,6 +1016,7 @@ func c14JSON(cx *c14Ctx) {
 	if nNum == 0 {
 		ru.Undecided("numbers", "", "no strconv/big number formatting found in internal/colorjson")
 	}
+	c14JSONScan(cx, ru)
 }
 
 func c14IsConst(v ssa.Value, k int64) bool {
@@ -1152,7 +1172,7 @@ func c14Flush(cx *c14Ctx) {
 // C14.urlkeys: what from_url extracts, to_url consumes
 
 func c14URLKeys(cx *c14Ctx) {
-	ru := cx.r.Rule("C14.urlkeys", "every constant key from_url writes into its result object is read by to_url (a component that is extracted but ignored on the way back cannot round-trip)", 8)
+	ru := cx.r.Rule("C14.urlkeys", "every constant key from_url writes into its result object is read by to_url (a component that is extracted but ignored on the way back cannot round-trip); a key filled from a url.URL field is stored back into the same field; username/password keep their places in Userinfo / url.UserPassword", 17)
 	p := cx.p
 	from, to := cx.reg["from_url"], cx.reg["to_url"]
 	if from == nil || to == nil {
@@ -1182,6 +1202,7 @@ func c14URLKeys(cx *c14Ctx) {
 	for _, k := range fw.SortedKeys(written) {
 		ru.Check(read[k], "key:"+k, p.Rel(written[k].Pos()), "read by to_url", fmt.Sprintf("from_url emits %q but to_url never reads it: that component of the URL is lost by from_url | to_url", k))
 	}
+	c14URLFields(cx, ru, from, to)
 }
 
 // ---------------------------------------------------------------------------
